@@ -9,6 +9,9 @@ package c04
 //	                                 ∧ (client is public ⇒ the request carried a challenge)
 //	                                 ∧ the code has not been exchanged before;
 //	tokens carry subject, client, scopes, nonce of the request.
+//
+// "the client", "public" and "authenticated as" mean the registration in force when the code is presented (a history may change
+// registrations between issuing and redeeming a code, op reg); public = auth method none, whatever the application type.
 
 import (
 	"crypto"
@@ -32,6 +35,9 @@ import (
 
 type mReq struct {
 	client    int
+	// kindAtRequest: how the client was registered when the request was made (labels and messages only: every verdict is
+	// computed from the registration in force when the code is presented)
+	kindAtRequest string
 	redirect  string
 	method    string // "" (no PKCE) | "plain" | "S256"
 	challenge string
@@ -333,6 +339,10 @@ func (m *model) judge(a attempt, clients []vkit.ClientSpec) verdict {
 		no = append(no, "redirect-missing")
 	case a.redirect != rq.redirect:
 		no = append(no, "redirect-mismatch")
+	case !has(r.RedirectURIs, rq.redirect):
+		// equal to the one the request used, which the client has deregistered since: the statement does not say whether
+		// such a code may still be honoured
+		grey = append(grey, "redirect-no-longer-registered")
 	}
 	if rq.method != "" {
 		if a.verifier == "" {
